@@ -337,7 +337,12 @@ func (d *ColumnDetector) findVerticalGaps(fragments []text.TextFragment, pageWid
 		return nil
 	}
 	numBuckets := int(pageWidth/bucketSize) + 1
-	histogram := make([]int, numBuckets)
+	// Each fragment covers a run of buckets. Incrementing every bucket of the run
+	// costs fragments x buckets when fragments are as wide as the page: on a page
+	// 5242000 wide, 20000 fragments set in a font of size 10000000 (an 80 KB file)
+	// took 2*10^10 steps and Text() did not return within 10 s. Record where runs
+	// start and end instead and sum once.
+	histogram := make([]int, numBuckets+1)
 
 	// Find X range of actual content
 	minX, maxX := fragments[0].X, fragments[0].X+fragments[0].Width
@@ -358,10 +363,15 @@ func (d *ColumnDetector) findVerticalGaps(fragments []text.TextFragment, pageWid
 		if endBucket >= numBuckets {
 			endBucket = numBuckets - 1
 		}
-		for b := startBucket; b <= endBucket; b++ {
-			histogram[b]++
+		if startBucket <= endBucket {
+			histogram[startBucket]++
+			histogram[endBucket+1]--
 		}
 	}
+	for b := 1; b < len(histogram); b++ {
+		histogram[b] += histogram[b-1]
+	}
+	histogram = histogram[:numBuckets]
 
 	// Find average density in content area
 	startBucket := int(minX / bucketSize)
